@@ -30,6 +30,9 @@ pub enum Plan16 {
     Agg { inst: Inst, other: Option<Inst>, meas: Vec<N>, ctx: Hx, nonce: Hx, rand: Hx, vk: Hx, what: String, id: u64 },
     /// DP parameter constructors
     Dp { n: N, d: N, what: String },
+    /// aggregator-side noise (`AggregatorWithNoise::add_noise_to_agg_share`) with extreme instance
+    /// and privacy parameters; the OS randomness is replaced by a tape through the RNG seam
+    Noise { class: String, n: u8, max: N, len: u32, chunk: u32, eps_n: N, eps_d: N, tape: Hx, num_measurements: u64 },
 }
 
 pub struct Check16;
@@ -43,6 +46,18 @@ const USIZES: [u64; 16] = [0, 1, 2, 3, 7, 8, 255, 256, 65_535, 65_536, u32::MAX 
 fn gen(seed: u64) -> Plan16 {
     let mut rng = Rng::new(seed);
     let rng = &mut rng;
+    if rng.chance(1, 12) {
+        let class = *rng.pick(&["sumvec", "sumvec64", "hist", "hist64", "l1", "l164", "sumvec-mt", "hist-mt"]);
+        let f64c = class.ends_with("64");
+        let max = if f64c {
+            *rng.pick(&[1u128, 2, 255, 1 << 31, (1 << 62) - 1, 1 << 62, (1u128 << 63) - 1, 1 << 63, model::P64 - 1])
+        } else {
+            *rng.pick(&[1u128, 2, 255, 1 << 64, (1 << 126) - 1, 1 << 126, (1u128 << 127) - 1, 1 << 127, model::P128 - 1])
+        };
+        let len = 1 + rng.below(6) as u32;
+        let ext: [u128; 9] = [1, 1, 2, 3, 1000, u32::MAX as u128, u64::MAX as u128, (1u128 << 100) + 7, u128::MAX];
+        return Plan16::Noise { class: class.to_string(), n: 2 + rng.below(2) as u8, max: N(max), len, chunk: 1 + rng.below(len as u64 + 2) as u32, eps_n: N(*rng.pick(&ext)), eps_d: N(*rng.pick(&ext)), tape: Hx(rng.bytes(64)), num_measurements: *rng.pick(&[0u64, 1, 2, 1000, u64::MAX]) };
+    }
     match rng.below(10) {
         0..=3 => {
             let class = *rng.pick(&["count", "sum", "sum128", "avg", "sumvec", "sumvec-mt", "hist", "hist-mt", "multihot", "multihot-mt", "l1", "prio2", "poplar1", "generic"]);
@@ -809,6 +824,108 @@ fn exec(p: &Plan16, ctx: &mut Ctx, counters2: &mut Counters) -> Result<(), Strin
                 Err(BuildErr::Refused(e)) | Err(BuildErr::Unknown(e)) => Err(e),
                 Err(BuildErr::Panic(v)) => Err(v.detail),
             }
+        }
+        Plan16::Noise { class, n, max, len, chunk, eps_n, eps_d, tape, num_measurements } => {
+            use prio::dp::distributions::PureDpDiscreteLaplace;
+            use prio::dp::DifferentialPrivacyStrategy;
+            use prio::vdaf::{AggregateShare, AggregatorWithNoise};
+            ctx.sig.str("noise").str(class).u64(max.0 as u64 ^ (max.0 >> 64) as u64).u64(*len as u64).u64(eps_n.0 as u64).u64(eps_d.0 as u64).u64(*num_measurements);
+            ctx.counters.inc(&format!("noise.{class}"));
+            ctx.fault("caller_misuse.noise_parameters");
+            ctx.fault("rng_tape_replaces_os_randomness");
+            ctx.events += 1;
+            let strategy = match guard("dp budget", || Rational::from_unsigned(eps_n.0, eps_d.0).and_then(PureDpBudget::new)) {
+                Ok(Ok(b)) => PureDpDiscreteLaplace::from_budget(b),
+                Ok(Err(_)) => return Err("harness: positive rational refused".into()),
+                Err(v) => {
+                    ctx.fail(v);
+                    return Ok(());
+                }
+            };
+            let (len_u, chunk_u) = (*len as usize, *chunk as usize);
+            let nm = *num_measurements as usize;
+            // the hook's tape wraps around: a short tape is a periodic random source, under which the
+            // samplers' rejection loops can cycle forever (not a library matter). Expand the plan's
+            // bytes into a 1 MiB stream so that no rejection loop can see a period.
+            let long_tape: Vec<u8> = {
+                let mut seed = [0u8; 8];
+                seed.copy_from_slice(&tape.0[..8]);
+                let mut r = Rng::new(u64::from_le_bytes(seed));
+                r.bytes(1 << 20)
+            };
+            // run the same call twice under the same tape: no panic, and an exactly repeatable result
+            macro_rules! drive {
+                ($ctor:expr, $fty:ty, $esz:expr) => {{
+                    let vdaf = match guard("constructor", || $ctor) {
+                        Ok(Ok(v)) => v,
+                        Ok(Err(_)) => {
+                            ctx.counters.inc("c16.ctor_refused");
+                            return Ok(());
+                        }
+                        Err(v) => {
+                            ctx.fail(v);
+                            return Ok(());
+                        }
+                    };
+                    use prio::flp::Type as _;
+                    let olen = vdaf.output_len();
+                    let base: Vec<$fty> = (0..olen).map(|i| <$fty as prio::codec::Decode>::get_decoded(&((tape.0[i % tape.0.len()] as u128) * 0x0101_0101).to_le_bytes()[..$esz]).unwrap()).collect();
+                    let mut results: Vec<Result<Vec<u8>, String>> = Vec::new();
+                    for _ in 0..2 {
+                        let mut share = AggregateShare::from(base.clone());
+                        prio::verif_hooks::install_tape(long_tape.clone());
+                        let r = guard("add_noise_to_agg_share", || vdaf.add_noise_to_agg_share(&strategy, &(), &mut share, nm));
+                        let used = prio::verif_hooks::remove_tape();
+                        match r {
+                            Err(v) => {
+                                ctx.fail(v);
+                                return Ok(());
+                            }
+                            Ok(Err(e)) => results.push(Err(e.to_string())),
+                            Ok(Ok(())) => {
+                                ctx.counters.add("noise.tape_bytes", used as u64);
+                                if used == 0 && olen > 0 {
+                                    return Err("add_noise_to_agg_share consumed no tape bytes (hook inactive?)".into());
+                                }
+                                let enc = prio::codec::Encode::get_encoded(&share).map_err(|e| e.to_string())?;
+                                if enc.len() != olen * $esz {
+                                    ctx.fail(Violation::new("C16.unusable_instance", format!("noise|len|{class}"), format!("the noised aggregate share has {} bytes, expected {}", enc.len(), olen * $esz)));
+                                    return Ok(());
+                                }
+                                results.push(Ok(enc));
+                            }
+                        }
+                    }
+                    if results[0] != results[1] {
+                        ctx.fail(Violation::new("C16.noise_replay", format!("noise|replay|{class}"), "the same call under the same randomness tape gave two different results".to_string()));
+                    }
+                    ctx.counters.inc(if results[0].is_ok() { "c16.noise_added" } else { "c16.refused" });
+                }};
+            }
+            match class.as_str() {
+                "sumvec" => drive!(Prio3::new_sum_vec(*n, max.0, len_u, chunk_u), prio::field::Field128, 16),
+                "sumvec-mt" => drive!(Prio3::new_sum_vec_multithreaded(*n, max.0, len_u, chunk_u), prio::field::Field128, 16),
+                "hist" => drive!(Prio3::new_histogram(*n, len_u + 1, chunk_u), prio::field::Field128, 16),
+                "hist-mt" => drive!(Prio3::new_histogram_multithreaded(*n, len_u + 1, chunk_u), prio::field::Field128, 16),
+                "l1" => drive!(Prio3::new_l1_bound_sum(*n, max.0, len_u, chunk_u), prio::field::Field128, 16),
+                "sumvec64" => drive!(
+                    Prio3::<_, prio::vdaf::xof::XofTurboShake128, 32>::new(*n, 1, 0xFFFF_1003, prio::flp::types::SumVec::<prio::field::Field64, prio::flp::gadgets::ParallelSum<prio::field::Field64, prio::flp::gadgets::Mul>>::new(max.0 as u64, len_u, chunk_u).map_err(prio::vdaf::VdafError::from)?),
+                    prio::field::Field64,
+                    8
+                ),
+                "hist64" => drive!(
+                    Prio3::<_, prio::vdaf::xof::XofTurboShake128, 32>::new(*n, 1, 0xFFFF_1004, prio::flp::types::Histogram::<prio::field::Field64, prio::flp::gadgets::ParallelSum<prio::field::Field64, prio::flp::gadgets::Mul>>::new(len_u + 1, chunk_u).map_err(prio::vdaf::VdafError::from)?),
+                    prio::field::Field64,
+                    8
+                ),
+                "l164" => drive!(
+                    Prio3::<_, prio::vdaf::xof::XofTurboShake128, 32>::new(*n, 1, 0xFFFF_1007, prio::flp::types::L1BoundSum::<prio::field::Field64, prio::flp::gadgets::ParallelSum<prio::field::Field64, prio::flp::gadgets::Mul>>::new(max.0 as u64, len_u, chunk_u).map_err(prio::vdaf::VdafError::from)?),
+                    prio::field::Field64,
+                    8
+                ),
+                _ => {}
+            }
+            Ok(())
         }
         Plan16::Dp { n, d, what } => {
             ctx.sig.str("dp").str(what).u64(n.0 as u64).u64(d.0 as u64);
